@@ -100,6 +100,8 @@ func runScenario(id, valspec, cmdspec, schedspec string, settle time.Duration) s
 				switch p[0] {
 				case "PUSH":
 					r = n.RPush(keyName(p[1]), []byte("x"))
+				case "PUSHX":
+					r = n.RPushX(keyName(p[1]), []byte("x"))
 				case "POP":
 					r = int64(len(n.LPop(keyName(p[1]), 1)))
 				case "LEN":
